@@ -255,6 +255,16 @@ func (v *Validators) SetNewValidators(candidates []*candidates.Candidate) {
 		})
 	}
 
+	// rewards accumulated by validators that leave the set (e.g. after a public key change) must not vanish
+	for _, oldVal := range old {
+		if _, removed := oldValidatorsForRemove[oldVal.PubKey]; removed {
+			if reward := oldVal.GetAccumReward(); reward.Sign() == 1 {
+				v.bus.App().AddTotalSlashed(reward)
+				oldVal.SetAccumReward(big.NewInt(0))
+			}
+		}
+	}
+
 	v.lock.Lock()
 	v.removed = oldValidatorsForRemove
 	v.lock.Unlock()
